@@ -121,6 +121,21 @@ class ZoneUnit(Shape):
         return {'kind': out[0], 'state': [under(model, x) for x in out[1]] if out[0] == 'ok' else out[1]}
 
 
+class OneLineShape(LayoutShape):
+    """a zone directive and a statement written on one line: `prog` states the program line by line (the reference), `files`
+    the same statements with the directive and what follows it joined; only the image is judged"""
+
+    def expected_outcomes(self):
+        return ['ok']
+
+    def judge(self, env, out):
+        if out.kind != 'ok':
+            return [('C05.one_line_form_is_assembled', z3.BoolVal(False))]
+        ref = self.ref(env)
+        return [('C05.statement_after_a_zone_directive_on_its_line_is_placed_in_that_zone',
+                 ref.image_ok(out.image, zv(0), None, zv(0)))]
+
+
 def mk(sid, prog, consts=None, files=None, expect=('ok', 'rejected'), props=('C05', 'C14'), width=24, **kw):
     p = {'main.asm': prog}
     p.update(files or {})
@@ -161,6 +176,13 @@ def pipe_shapes(tier):
             ('create_memzone', 'NZ', a, b), ('memzone', 'NZ'), ('data', '.byte', [C(5)])], {},
             expect=('ok', 'rejected') if nm == 'inside' else ('rejected',),
             global_zone=(Sym('gs', 0, 0x40), Sym('ge', 0x20, 0x80)), origin=Sym('o0', 0, 0x80)))
+    # a statement on the line of the zone directive
+    prog = [('instr', 'nop', None), ('memzone', 'Z'), ('data', '.byte', [C(1), V('b')]), ('memzone', 'GLOBAL'), ('data', '.byte', [C(2)]),
+            ('org', C(4), 'Z'), ('data', '.byte', [C(3)]), ('org', V('g'), None), ('instr', 'ld8', V('b'))]
+    text = 'nop\n.memzone Z .byte 1, b\n.memzone GLOBAL .byte 2\n.org 4 "Z" .byte 3\n.org g\nld8 b\n'
+    S.append(OneLineShape('one-line:zone-directive-then-statement', prog={'main.asm': prog}, files={'main.asm': text},
+                          cfgargs=dict(consts={'b': (0, 255), 'g': (0x40, 0x42)}, zones={'Z': (0x20, 0x2f)}),
+                          props=['C05'], binary=True, width=24, start=0))
     # the name GLOBAL is taken whether or not the definition redefines that zone
     S.append(mk('create-memzone:named-GLOBAL-default', [
         ('create_memzone', 'GLOBAL', 0x20, 0x2f), ('instr', 'nop', None)], {}, expect=('rejected',), origin=Sym('o0', 0, 0x10)))
